@@ -179,6 +179,7 @@ func checkCmd(args []string) {
 		}
 	}
 	var all []*Result
+	usedLemmas := map[string]bool{}
 	var funcsUnder []string
 	var trustedFns []string
 	assumptions := map[string]bool{}
@@ -197,7 +198,7 @@ func checkCmd(args []string) {
 				trustedFns = append(trustedFns, fi.qname())
 				assumptions["trusted contract (body not verified): "+fi.qname()] = true
 			}
-			if fi.fc.IsIface {
+			if fi.fc.IsIface && !fi.fc.Trusted {
 				// every implementation in the loaded packages must be under contract
 				for _, impl := range P.implsOf(fi) {
 					if !seen[impl] {
@@ -215,6 +216,9 @@ func checkCmd(args []string) {
 			continue
 		}
 		funcsUnder = append(funcsUnder, fi.qname())
+		for _, u := range fi.fc.Uses {
+			usedLemmas[fi.pkg.PkgPath+"."+u] = true // a lemma a function relies on is proved in the same run
+		}
 		vcs = append(vcs, vc)
 		for a := range vc.assumed {
 			assumptions[a] = true
@@ -228,6 +232,9 @@ func checkCmd(args []string) {
 			}
 		}
 	}
+	for _, pr := range P.checkClosed() {
+		all = append(all, &Result{Name: "closed-world: " + pr, Class: "closed-world", Func: "closed-world", Status: "error", Output: pr, Construct: pr})
+	}
 	// lemmas
 	for ip, pc := range P.pcs {
 		pkg := P.pkgs[ip]
@@ -235,7 +242,7 @@ func checkCmd(args []string) {
 			continue
 		}
 		for _, l := range pc.Lemmas {
-			if !hasProp(l.Props, prop) {
+			if !hasProp(l.Props, prop) && !usedLemmas[ip+"."+l.Name] {
 				continue
 			}
 			r, as := P.lemmaObligation(pkg, pc, l)
@@ -276,7 +283,7 @@ func checkCmd(args []string) {
 			solve = append(solve, r)
 		}
 	}
-	solveAll(solve, sec, tier == "thorough", 16)
+	solveAll(solve, sec, tier == "thorough", 8) // two racing solver processes per obligation: 16 cores
 
 	findings := loadFindings()
 	nObl, nDis := 0, 0
